@@ -31,6 +31,20 @@ def check_orientation(run, A):
             n += 1
             run.check(ok, 'ORIENT', f'{q.split("::")[1]} {st["sub"]!r}: score[reference, estimate]', s.loc, '',
                       f'{st["sub"]!r}: rows of the score matrix must index the reference classes, columns the estimated classes, summed over time', construct=f'ORIENT::{q}::einsum')
+    # ... and the inner product is returned as it is, with its sign: the magnitude ranks a row and its negation alike (anti-parallel rows tie with parallel ones)
+    qm = P + '_ScoreMatrix.multiply'
+    fnm = A.prog.func(qm)
+    sites_m = ein.find_sites(A, qm)
+    for r_ in ret_alts(A.graphs.get(fnm)):
+        r0 = strip_views(r_)
+        if any(r0 is s_.term for s_ in sites_m) or is_call_to(r0, 'numpy.einsum', 'numpy.matmul', 'numpy.dot', 'numpy.tensordot', 'numpy.inner') or (r0.op == 'binop' and r0.args[0] == 'MatMult'):
+            run.ok('ORIENT', '_ScoreMatrix.multiply: the signed inner product is the score', fnm.loc(getattr(r0, 'node', None)), 'the contraction itself is returned')
+        elif is_call_to(r0, 'numpy.abs', 'builtin.abs', 'numpy.absolute') or (r0.op == 'binop' and r0.args[0] == 'Pow'):
+            run.violation('ORIENT', '_ScoreMatrix.multiply: the signed inner product is the score', fnm.loc(getattr(r0, 'node', None)),
+                          'the magnitude (or a power) of the inner product is returned: a class row and its negation get the same score, two anti-parallel reference rows cannot be told apart',
+                          construct=f'ORIENT::{qm}::signed')
+        else:
+            run.unresolved('ORIENT', '_ScoreMatrix.multiply: the signed inner product is the score', fnm.loc(getattr(r0, 'node', None)), 'the returned value is not the contraction itself')
     # cos = multiply(normalised mask, normalised reference) in the same order
     q = P + '_ScoreMatrix.cos'
     fn = A.prog.func(q)
